@@ -283,7 +283,8 @@ func (m *C11) checkTake(w *eng.World, st *eng.MsgStep, msg *baskettypes.MsgTake)
 		taken[c.BatchDenom] = a
 		sum.Add(sum, a)
 		held := ref.MustRat(bb.Balance)
-		if a.Sign() <= 0 || a.Cmp(held) > 0 {
+		// an entry of exactly zero (valid state, only a genesis document contains one) is drained by taking zero from it
+		if a.Sign() < 0 || (a.Sign() == 0 && held.Sign() != 0) || a.Cmp(held) > 0 {
 			w.Violation("C11", "take-entry-amount-wrong", "Take entry %s amount %s, basket held %s", c.BatchDenom, c.Amount, bb.Balance)
 		}
 		if i < len(resp.Credits)-1 && a.Cmp(held) != 0 {
@@ -327,7 +328,7 @@ func (m *C11) checkTake(w *eng.World, st *eng.MsgStep, msg *baskettypes.MsgTake)
 		if got.Cmp(exp) != 0 {
 			w.Violation("C11", "take-basket-balance-wrong", "after Take the basket holds %s of %s, want %s", ref.RatString(got), dn, ref.RatString(exp))
 		}
-		if exp.Sign() == 0 && postBal[dn] != nil {
+		if exp.Sign() == 0 && postBal[dn] != nil && taken[dn] != nil {
 			w.Violation("C11", "take-zero-row-kept", "drained basket balance row for %s kept with balance %s", dn, ref.RatString(postBal[dn]))
 		}
 	}
